@@ -372,6 +372,8 @@ func (fr *Frame) applyContract(st *State, fc *FuncContract, sig *types.Signature
 		res = append(res, v)
 		if i < len(fc.Results) {
 			post.vars[fc.Results[i]] = v
+		} else if fc.IsClosure {
+			post.vars[fmt.Sprintf("ret%d", i)] = v
 		}
 	}
 	for _, e := range fc.Ensures {
